@@ -84,6 +84,16 @@ HAND_HISTORIES = [
                {"type": {"type": "boolean"}, "name": None}]},
     {"calls": [{"root": {"title": "Tree", "type": "object", "properties": {"children": {"type": "array", "items": {"$ref": "#"}}}}},
                {"root": {"title": "Circle", "type": "object", "properties": {"r": {"type": "integer"}}}}]},
+    # recursive definitions (their members rewritten in place by the cycle breaking), USED again by later additions that need the
+    # very unnamed types the rewriting touched: Option<Node>, Option<Pair>, a tuple, a nullable union
+    {"calls": [{"defs_list": [["Node", {"type": "object", "properties": {"value": {"type": "integer"}, "next": {"$ref": "#/definitions/Node"}}}]]},
+               {"type": {"type": "object", "properties": {"head": {"$ref": "#/definitions/Node"}}}, "name": "Holder"},
+               {"type": {"type": "object", "properties": {"head": {"$ref": "#/definitions/Node"}}, "required": ["head"]}, "name": "Holder2"}]},
+    {"calls": [{"defs_list": [["Ping", {"type": "object", "properties": {"peer": {"oneOf": [{"$ref": "#/definitions/Pong"}, {"type": "null"}]}}}],
+                              ["Pong", {"type": "object", "properties": {"peer": {"$ref": "#/definitions/Ping"}, "pair": {"type": "array", "items": [{"$ref": "#/definitions/Ping"}, {"type": "string"}], "minItems": 2, "maxItems": 2}}}]]},
+               {"type": {"type": "object", "properties": {"a": {"$ref": "#/definitions/Ping"}, "b": {"oneOf": [{"$ref": "#/definitions/Pong"}, {"type": "null"}]},
+                                                            "c": {"type": "array", "items": [{"$ref": "#/definitions/Ping"}, {"type": "string"}], "minItems": 2, "maxItems": 2}}}, "name": "Both"},
+               {"defs_list": [["Later", {"type": "object", "properties": {"p": {"$ref": "#/definitions/Pong"}}}]]}]},
 ]
 
 def gen_history(rng, max_calls):
